@@ -35,7 +35,8 @@ fn hex(s: &str) -> String {
     s.bytes().map(|b| format!("{:02x}", b)).collect()
 }
 fn names<'a, I: IntoIterator<Item = &'a String>>(it: I) -> String {
-    let v: Vec<String> = it.into_iter().map(|s| hex(s)).collect();
+    // an empty name is written "~" so that it cannot be confused with the empty list "-"
+    let v: Vec<String> = it.into_iter().map(|s| if s.is_empty() { "~".to_string() } else { hex(s) }).collect();
     if v.is_empty() {
         "-".to_string()
     } else {
@@ -340,7 +341,66 @@ fn parse_pe<'a>(toks: &mut std::slice::Iter<'a, &'a str>) -> E {
 enum Step {
     Ok(Obj),
     Err,
+    ErrV(String),
     Na,
+}
+
+fn csv_err_name(e: &bbf::table::csv::error::TruthTableFromCsvError) -> &'static str {
+    use bbf::table::csv::error::TruthTableFromCsvError::*;
+    match e {
+        DuplicateVariableName { .. } => "DuplicateVariableName",
+        UnexpectedEof => "UnexpectedEof",
+        RecordDifferentSizeThanHeader { .. } => "RecordDifferentSizeThanHeader",
+        NonBooleanCellValue { .. } => "NonBooleanCellValue",
+        NoOutputColumn => "NoOutputColumn",
+        MismatchedRecordCountAndVariableCount { .. } => "MismatchedRecordCountAndVariableCount",
+        NoDelimiterFound => "NoDelimiterFound",
+        ParsingError(_) => "ParsingError",
+        IOError(_) => "IOError",
+    }
+}
+fn show_table(t: &T) -> String {
+    let (i, o) = t.verif_raw();
+    format!("{}:{}", names(i.iter()), bits(o))
+}
+fn csv_in(file: bool, text: &str) -> Result<T, String> {
+    let r = if file {
+        use std::io::Write as _;
+        let mut f = tempfile::NamedTempFile::new().unwrap();
+        f.write_all(text.as_bytes()).unwrap();
+        f.flush().unwrap();
+        T::from_csv_file(f.path())
+    } else {
+        T::from_csv_string(text)
+    };
+    match r {
+        Ok(t) => Ok(t),
+        Err(e) => {
+            // the message must be printable too (it is what Python users see)
+            let _ = e.to_string();
+            Err(csv_err_name(&e).to_string())
+        }
+    }
+}
+fn fmt_of(s: &str) -> bbf::table::display_formatted::TableBooleanFormatting {
+    use bbf::table::display_formatted::TableBooleanFormatting::*;
+    match s {
+        "N" => Number,
+        "C" => Character,
+        "W" => Word,
+        "K" => CapitalizedWord,
+        _ => panic!("fmt"),
+    }
+}
+fn sty_of(s: &str) -> bbf::table::display_formatted::TableStyle {
+    use bbf::table::display_formatted::TableStyle::*;
+    match s {
+        "A" => Ascii,
+        "M" => Modern,
+        "D" => Markdown,
+        "E" => Empty,
+        _ => panic!("style"),
+    }
 }
 
 fn valuation(n: usize, rest: &[&str]) -> BTreeMap<String, bool> {
@@ -551,6 +611,10 @@ fn exec(pool: &[Option<Obj>], toks: &[&str]) -> Step {
                 _ => Step::Na,
             }
         }
+        "csvin" => match csv_in(toks[1] == "file", &unhex(toks[2])) {
+            Ok(t) => Step::Ok(Obj::T(t)),
+            Err(v) => Step::ErrV(v),
+        },
         "parse" => {
             use std::str::FromStr;
             match E::from_str(&unhex(toks[1])) {
@@ -579,9 +643,14 @@ fn query(pool: &[Option<Obj>], toks: &[&str]) -> String {
         "obs" => match reg(toks[1]) {
             None => "skip".to_string(),
             Some(o) => {
-                let tv = match catch_unwind(AssertUnwindSafe(|| truth_vector(&o))) {
-                    Ok(v) => bits(&v),
-                    Err(_) => "panic".to_string(),
+                let is_empty_table = matches!(&o, Obj::T(t) if t.verif_raw().1.is_empty());
+                let tv = if is_empty_table {
+                    "-".to_string()
+                } else {
+                    match catch_unwind(AssertUnwindSafe(|| truth_vector(&o))) {
+                        Ok(v) => bits(&v),
+                        Err(_) => "panic".to_string(),
+                    }
                 };
                 format!(
                     "kind={} struct={} inputs={} tv={}",
@@ -696,6 +765,34 @@ fn query(pool: &[Option<Obj>], toks: &[&str]) -> String {
                 None => format!("{} acc=0", f),
             }
         }
+        "csvout" => match reg(toks[1]) {
+            Some(Obj::T(t)) => {
+                let text = t.to_csv_formatted(',', fmt_of(toks[2]), fmt_of(toks[3]));
+                let back = match catch_unwind(AssertUnwindSafe(|| csv_in(false, &text))) {
+                    Ok(Ok(t2)) => format!("ok:{}", show_table(&t2)),
+                    Ok(Err(v)) => format!("err:{}", v),
+                    Err(_) => "panic".to_string(),
+                };
+                format!("text={} round={}", hex(&text), back)
+            }
+            _ => "skip".to_string(),
+        },
+        "csvdef" => match reg(toks[1]) {
+            Some(Obj::T(t)) => format!("text={}", hex(&t.to_csv())),
+            _ => "skip".to_string(),
+        },
+        "render" => match reg(toks[1]) {
+            Some(Obj::T(t)) => format!(
+                "text={}",
+                hex(&t.to_string_formatted(sty_of(toks[2]), fmt_of(toks[3]), fmt_of(toks[4])))
+            ),
+            _ => "skip".to_string(),
+        },
+        "display" => match reg(toks[1]) {
+            Some(Obj::T(t)) => format!("text={}", hex(&t.to_string())),
+            Some(Obj::E(e)) => format!("text={}", hex(&e.to_string())),
+            _ => "skip".to_string(),
+        },
         "show" => match reg(toks[1]) {
             Some(Obj::E(e)) => format!("show={}", hex(&e.to_string())),
             _ => "skip".to_string(),
@@ -756,6 +853,7 @@ fn main() {
             "r" => {
                 lineno += 1;
                 let res = catch_unwind(AssertUnwindSafe(|| exec(&pool, &toks[1..])));
+                let mut variant = String::new();
                 let status = match res {
                     Ok(Step::Ok(o)) => {
                         pool.push(Some(o));
@@ -763,6 +861,11 @@ fn main() {
                     }
                     Ok(Step::Err) => {
                         pool.push(None);
+                        "err"
+                    }
+                    Ok(Step::ErrV(v)) => {
+                        pool.push(None);
+                        variant = format!(" variant={}", v);
                         "err"
                     }
                     Ok(Step::Na) => {
@@ -774,7 +877,7 @@ fn main() {
                         "panic"
                     }
                 };
-                writeln!(out, "{} {} {}", case, lineno, status).unwrap();
+                writeln!(out, "{} {} {}{}", case, lineno, status, variant).unwrap();
             }
             "q" => {
                 lineno += 1;
